@@ -65,6 +65,8 @@ def known_for(known, pid, script):
 
 
 def match_known(entries, cls):
+    if cls.endswith(":model-disagrees"):
+        return None          # a recorded finding is behaviour the model reproduces
     return next((f for f in entries if f["class"] == cls or fnmatch.fnmatchcase(cls, f["class"])), None)
 
 
@@ -107,13 +109,13 @@ def visitor_part(res, known, prefix):
             if k is not None:
                 a = agg.setdefault(k["id"], [k["what"], 0, None])
                 a[1] += e["count"]
-                ex = " ".join(unpy(e["example"]).split())
+                ex = " ".join((e.get("text") or unpy(e["example"])).split())
                 if a[2] is None or len(ex) < len(a[2]):
                     a[2] = ex
             else:
                 seen_dev = True
                 res.violation({"kind": "deviation", "what": "the real visitor/compiler deviates from %s: class %s (%d texts)" % (pid, cls, e["count"]),
-                               "class": cls, "dsl": unpy(e["example"]), "rerun": "cd /verif && python3 harness/visitor.py " + " ".join(args)}, found=True)
+                               "class": cls, "dsl": e.get("text") or unpy(e["example"]), "rerun": "cd /verif && python3 harness/visitor.py " + " ".join(args)}, found=True)
         mm = [m for m in rep.get("mismatches", []) if relevant_mismatch(prefix, m)]
         if mm:
             res.violation({"kind": "correspondence", "what": "the visitor model (coq/Model/Visitor.v) and the real visitor disagree on %d texts" % len(mm),
@@ -189,6 +191,8 @@ def fmt_part(res, known, props):
             return None
         for cls, e in sorted(rep["classes"].items()):
             orc = set(e.get("oracles") or {})
+            if not orc and cls in ("UTF8-REPLACED", "C11-STACK-DEPTH"):
+                orc = {"content"} if cls == "UTF8-REPLACED" else {"no-crash"}
             if not any(ORACLE_PROP.get(o) == pid for o in orc):
                 continue
             k = match_known(entries, cls)
